@@ -32,12 +32,14 @@ theorem C07_remove_row (m : Mode) (t : TD α) (h : t.Inv) (i : Nat) (hi : i < t.
   have hcond : i * t.numCols ≤ i * t.numCols + t.numCols ∧ i * t.numCols + t.numCols ≤ t.data.length :=
     ⟨by omega, by omega⟩
   have hfc : (t.numRows - 1 = 0) = (t.numRows = 1) := propext ⟨fun _ => by omega, fun _ => by omega⟩
-  refine ⟨_, ?_, ?_⟩
+  refine ⟨{ items := (t.data.drop (i * t.numCols)).take (i * t.numCols + t.numCols - i * t.numCols),
+            pre := t.data.take (i * t.numCols), tail := t.data.drop (i * t.numCols + t.numCols),
+            leakRows := i, leakCols := if i = 0 then 0 else t.numCols,
+            finalRows := t.numRows - 1, finalCols := if t.numRows - 1 = 0 then 0 else t.numCols }, ?_, ?_⟩
   · unfold TD.removeRow
     rw [if_neg (by simpa using hi)]
     simp only [pure_eq, ok_bind, e1, e2, e3]
     rw [if_neg (by simpa using hcond)]
-    simp only [ok_bind]
   · refine ⟨?_, rfl, ?_, rfl, ?_⟩
     · show (t.data.drop (i * t.numCols)).take (i * t.numCols + t.numCols - i * t.numCols) = _
       rw [Nat.add_sub_cancel_left]
@@ -63,7 +65,7 @@ theorem C07_drain_row_steps (d : DrainRow α) :
         have : items = [] := List.getLast?_eq_none_iff.1 hx
         subst this
         simp
-      | some x => simp [hx]
+      | some x => simp
 
 /-- dropping the drain (whatever is left in `items`): the original without row `i`, invariant kept, rest dropped -/
 theorem C07_remove_row_drop (m : Mode) (t : TD α) (h : t.Inv) (i : Nat) (hi : i < t.numRows)
@@ -127,6 +129,7 @@ theorem C07_remove_row_reject (m : Mode) (t : TD α) (i : Nat) (hi : ¬ i < t.nu
 theorem C07_pop_row (m : Mode) (t : TD α) (h : t.Inv) :
     (t.numRows = 0 → t.popRow m = .ok none) ∧
     (t.numRows ≠ 0 → t.popRow m = (t.removeRow m (t.numRows - 1)).map some) := by
+  have _ := h
   constructor
   · intro h0
     simp [TD.popRow, h0]
@@ -140,7 +143,40 @@ theorem C07_remove_col (m : Mode) (t : TD α) (h : t.Inv) (i : Nat) (hi : i < t.
     ∃ d, t.removeCol m i = .ok d ∧ d.buf = t.data ∧ d.col = i ∧ d.numCols = t.numCols ∧ d.numRows = t.numRows ∧
       d.taken = [] ∧ d.iter.WF t.numRows t.data.length ∧
       d.iter.abs t.numRows = (List.range t.numRows).map fun r => t.pos i r := by
-  sorry
+  have hl := h.len
+  have hw := h.word
+  have hRpos : 0 < t.numRows := by
+    have := h.zero
+    omega
+  have hCR : t.numCols * t.numRows = (t.numRows - 1) * t.numCols + t.numCols := by
+    obtain ⟨r, hr⟩ : ∃ r, t.numRows = r + 1 := ⟨t.numRows - 1, by omega⟩
+    rw [hr, Nat.mul_comm, Nat.succ_mul, Nat.add_sub_cancel]
+  have e1 : usub m t.data.length t.numCols = .ok (t.data.length - t.numCols) := usub_ok m _ _ (by omega)
+  have e2 : uadd m (t.data.length - t.numCols) 1 = .ok (t.data.length - t.numCols + 1) :=
+    uadd_ok m _ _ (by omega)
+  have e3 : usub m t.numCols 1 = .ok (t.numCols - 1) := usub_ok m _ _ (by omega)
+  have hC1 : 1 + (t.numCols - 1) = t.numCols := by omega
+  refine ⟨{ iter := ⟨⟨i, t.data.length - t.numCols + 1⟩, t.numCols - 1⟩, col := i, numCols := t.numCols,
+            numRows := t.numRows, buf := t.data }, ?_, rfl, rfl, rfl, rfl, rfl, ?_, ?_⟩
+  · unfold TD.removeCol
+    rw [if_neg (by simpa using hi)]
+    simp only [pure_eq, ok_bind, e1, e2, e3]
+    rw [if_neg (Decidable.not_not.2 (by omega))]
+  · refine ⟨?_, ?_, ?_, hw⟩
+    · show t.data.length - t.numCols + 1 = if t.numRows = 0 then 0 else (t.numRows - 1) * (1 + (t.numCols - 1)) + 1
+      rw [if_neg (by omega), hC1]
+      omega
+    · show i + (t.data.length - t.numCols + 1) ≤ t.data.length
+      omega
+    · show 1 + (t.numCols - 1) < WORD
+      have : t.numCols * 1 ≤ t.numCols * t.numRows := Nat.mul_le_mul_left _ hRpos
+      omega
+  · show (List.range t.numRows).map (fun j => i + j * (1 + (t.numCols - 1))) = _
+    rw [hC1]
+    apply List.map_congr_left
+    intro r _
+    show i + r * t.numCols = r * t.numCols + i
+    omega
 
 /-- `DrainCol::next` / `next_back`: move out the cell the column cursor yields -/
 theorem C07_drain_col_next (m : Mode) (d : DrainCol α) (k : Nat) (hwf : d.iter.WF k d.buf.length) :
@@ -151,7 +187,37 @@ theorem C07_drain_col_next (m : Mode) (d : DrainCol α) (k : Nat) (hwf : d.iter.
         d'.iter.WF (k - 1) d.buf.length ∧ d'.iter.abs (k - 1) = (Seq.nextBack (d.iter.abs k)).2 ∧
         d'.buf = d.buf ∧ d'.col = d.col ∧ d'.numCols = d.numCols ∧ d'.numRows = d.numRows) ∧
     d.len m = .ok k := by
-  sorry
+  have _ := m
+  have hlt := rl_col_abs_lt d.iter k _ hwf
+  refine ⟨?_, ?_, C09_len m d.iter k _ hwf⟩
+  · obtain ⟨it', hn, hwf', habs⟩ := C09_next d.iter k _ hwf
+    rcases hx : (Seq.next (d.iter.abs k)).1 with _ | p
+    · rw [hx] at hn
+      refine ⟨{ d with iter := it' }, ?_, hwf', habs, rfl, rfl, rfl, rfl⟩
+      unfold DrainCol.next
+      rw [hn]
+      rfl
+    · rw [hx] at hn
+      have hp : p < d.buf.length := hlt p (List.mem_of_head? hx)
+      refine ⟨{ d with iter := it', taken := p :: d.taken }, ?_, hwf', habs, rfl, rfl, rfl, rfl⟩
+      unfold DrainCol.next
+      rw [hn]
+      simp only [ok_bind, rl_readCell_ok d.buf p hp, pure_eq, Option.bind_some,
+        List.getElem?_eq_getElem hp]
+  · obtain ⟨it', hn, hwf', habs⟩ := C09_next_back m d.iter k _ hwf
+    rcases hx : (Seq.nextBack (d.iter.abs k)).1 with _ | p
+    · rw [hx] at hn
+      refine ⟨{ d with iter := it' }, ?_, hwf', habs, rfl, rfl, rfl, rfl⟩
+      unfold DrainCol.nextBack
+      rw [hn]
+      rfl
+    · rw [hx] at hn
+      have hp : p < d.buf.length := hlt p (List.mem_of_getLast? hx)
+      refine ⟨{ d with iter := it', taken := p :: d.taken }, ?_, hwf', habs, rfl, rfl, rfl, rfl⟩
+      unfold DrainCol.nextBack
+      rw [hn]
+      simp only [ok_bind, rl_readCell_ok d.buf p hp, pure_eq, Option.bind_some,
+        List.getElem?_eq_getElem hp]
 
 /-- dropping a `DrainCol` at any stage of consumption (cursor with `k` cells left): the remaining column cells are dropped,
     the buffer is compacted to the original without column `i`, the invariant holds -/
@@ -163,7 +229,72 @@ theorem C07_remove_col_drop (m : Mode) (t : TD α) (h : t.Inv) (i : Nat) (hi : i
       t'.data = (t.grid.map fun ρ => ρ.eraseIdx i).flatten ∧
       t'.numCols = t.numCols - 1 ∧ t'.numRows = (if t.numCols = 1 then 0 else t.numRows) ∧
       t'.grid = (if t.numCols = 1 then [] else t.grid.map fun ρ => ρ.eraseIdx i) := by
-  sorry
+  have hl := h.len
+  have hw := h.word
+  have hRpos : 0 < t.numRows := by
+    have := h.zero
+    omega
+  have hglen := rl_grid_length t h
+  have hgne : t.grid ≠ [] := by
+    intro h0
+    rw [h0] at hglen
+    simp at hglen
+    omega
+  -- the compaction
+  obtain ⟨buf, src, dest, J, hloop, hmm, hJ⟩ := rl_compact_total hi t.grid (rl_grid_row_length t) hgne
+  rw [rl_grid_flatten t h, hglen] at hloop
+  -- exhausting the cursor
+  have hcollect : d.iter.collect (d.iter.v.len + 2) = .ok (d.iter.abs k) :=
+    C09_fold d.iter k _ hwf _ (by have := rl_col_len_ge d.iter k _ hwf; omega)
+  have hread := rl_mapM_readCell t.data (d.iter.abs k) (rl_col_abs_lt d.iter k _ hwf)
+  -- the compacted cells
+  have hXlen : ((t.grid.map fun ρ => ρ.eraseIdx i).flatten).length = (t.numCols - 1) * t.numRows := by
+    rw [rl_length_flatten_uniform (c := t.numCols - 1), List.length_map, hglen]
+    intro ρ hρ
+    obtain ⟨ρ0, hρ0, rfl⟩ := List.mem_map.1 hρ
+    rw [List.length_eraseIdx_of_lt (by rw [rl_grid_row_length t ρ0 hρ0]; exact hi), rl_grid_row_length t ρ0 hρ0]
+  have hle : (t.numCols - 1) * t.numRows ≤ t.numCols * t.numRows := Nat.mul_le_mul_right _ (by omega)
+  have hnl : (t.numCols - 1) * (if t.numCols - 1 = 0 then 0 else t.numRows) = (t.numCols - 1) * t.numRows := by
+    by_cases hc1 : t.numCols - 1 = 0
+    · simp [hc1]
+    · rw [if_neg hc1]
+  have e1 : usub m t.numCols 1 = .ok (t.numCols - 1) := usub_ok m _ _ (by omega)
+  have e2 : usub m t.numCols i = .ok (t.numCols - i) := usub_ok m _ _ (by omega)
+  have e3 : usub m (t.numCols - i) 1 = .ok (t.numCols - i - 1) := usub_ok m _ _ (by omega)
+  have e4 : umul m (t.numCols - 1) (if t.numCols - 1 = 0 then 0 else t.numRows)
+      = .ok ((t.numCols - 1) * t.numRows) := by
+    rw [umul_ok m _ _ (by rw [hnl]; omega), hnl]
+  have hc1 : (t.numCols - 1 = 0) = (t.numCols = 1) := propext ⟨fun _ => by omega, fun _ => by omega⟩
+  have htake : ((t.grid.map fun ρ => ρ.eraseIdx i).flatten ++ J).take ((t.numCols - 1) * t.numRows)
+      = (t.grid.map fun ρ => ρ.eraseIdx i).flatten := List.take_left' hXlen
+  refine ⟨⟨(t.grid.map fun ρ => ρ.eraseIdx i).flatten, if t.numCols - 1 = 0 then 0 else t.numRows, t.numCols - 1⟩,
+    (d.iter.abs k).filterMap (t.data[·]?), ?_, ?_, rfl, rfl, rfl, ?_, ?_⟩
+  · unfold DrainCol.drop
+    rw [hcollect, ok_bind, hb, hread, ok_bind, hnc, hc, hnr]
+    simp only [ok_bind, pure_eq, e1, hloop, e2, e3, hmm, e4]
+    rw [if_neg (Decidable.not_not.2 (by rw [List.length_append, hXlen]; omega)), htake]
+  · refine ⟨?_, ?_, ?_⟩
+    · show ((t.grid.map fun ρ => ρ.eraseIdx i).flatten).length = _
+      rw [hXlen]
+      exact hnl.symm
+    · show t.numCols - 1 = 0 ↔ (if t.numCols - 1 = 0 then 0 else t.numRows) = 0
+      by_cases hc0 : t.numCols - 1 = 0
+      · simp [hc0]
+      · rw [if_neg hc0]
+        omega
+    · show ((t.grid.map fun ρ => ρ.eraseIdx i).flatten).length < WORD
+      omega
+  · show (if t.numCols - 1 = 0 then 0 else t.numRows) = _
+    simp only [hc1]
+  · show toRows (t.numCols - 1) ((t.grid.map fun ρ => ρ.eraseIdx i).flatten) = _
+    by_cases hc0 : t.numCols = 1
+    · rw [if_pos hc0, hc0]
+      exact rl_toRows_zero _
+    · rw [if_neg hc0]
+      apply rl_toRows_flatten (by omega)
+      intro ρ hρ
+      obtain ⟨ρ0, hρ0, rfl⟩ := List.mem_map.1 hρ
+      rw [List.length_eraseIdx_of_lt (by rw [rl_grid_row_length t ρ0 hρ0]; exact hi), rl_grid_row_length t ρ0 hρ0]
 
 theorem C07_remove_col_reject (m : Mode) (t : TD α) (i : Nat) (hi : ¬ i < t.numCols) :
     t.removeCol m i = .error .panic := by
@@ -174,6 +305,7 @@ theorem C07_remove_col_reject (m : Mode) (t : TD α) (i : Nat) (hi : ¬ i < t.nu
 theorem C07_pop_col (m : Mode) (t : TD α) (h : t.Inv) :
     (t.numCols = 0 → t.popCol m = .ok none) ∧
     (t.numCols ≠ 0 → t.popCol m = (t.removeCol m (t.numCols - 1)).map some) := by
+  have _ := h
   constructor
   · intro h0
     simp [TD.popCol, h0]
